@@ -614,7 +614,12 @@ func readCur(path string) int {
 	if err != nil {
 		return -1
 	}
-	n, err := strconv.Atoi(strings.TrimSpace(string(b)))
+	// (the case index is the first field; a heartbeat may follow it)
+	f := strings.Fields(strings.ReplaceAll(string(b), "\x00", " "))
+	if len(f) == 0 {
+		return -1
+	}
+	n, err := strconv.Atoi(f[0])
 	if err != nil {
 		return -1
 	}
